@@ -609,7 +609,7 @@ let run ~seed ~tier oc =
     let env = { vars = List.map (fun (n, _, kk) -> (n, kk)) cx.vars; lists = cx.lists; maps = cx.maps; macros = []; in_loop = false; poke; no_inc = false } in
     let (macros, sigs) = if rint r 3 = 0 then gen_macros r env else ([], []) in
     let env = { env with macros = sigs } in
-    let (body, _) = gen_nodes r env (1 + rint r 2) (2 + rint r (if thorough && rint r 10 = 0 then 12 else 5)) in
+    let (body, _) = gen_nodes r env (1 + rint r 2) (2 + rint r (if thorough && rint r 10 = 0 then 7 else 5)) in
     let incs = inc_templates r { env with poke = false } in
     emit_render oc ~stream:(if poke then "random:poke" else "random") ~tagged ~heap ~root ~tpls:(("main", macros @ body) :: incs) ~poke
   done;
